@@ -176,11 +176,27 @@ def check(ctx):
     for idx in range(base_n):
         ep = episodes[idx]
         clients = sorted({l.split()[2] for l in ep[1:] if l.split()[1] == "allow"})
-        if len(clients) >= 2 and (ctx.thorough() or idx % 2 == 0):
+        if 2 <= len(clients) <= 12 and (ctx.thorough() or idx % 2 == 0):
             for cl in clients:
                 pairs.append((idx, cl, len(episodes)))
                 episodes.append(project(ep, cl))
     bad = d.check(episodes, oracle=oracle, label="rl")
+    # a crowd larger than any table bound an implementation might have (tens of thousands of addresses between two
+    # requests of one client), judged by the oracle alone: the model's client map is a function chain, quadratic in
+    # the number of clients, so the quick tier gives the model 6 000 clients (above) and the implementation 70 000 here
+    if not ctx.thorough():
+        big = crowd_episode(ctx.rng, 70000)
+        rc, log, oi, _ = d.run_both([big], want_model=False)
+        if rc != 0 or len(oi) != len(C.op_lines(big)):
+            C.violation(ctx, "rl-crowd-impl-crash", {"what": "implementation run ended early (exit %d) after %d/%d ops" % (rc, len(oi), len(big)),
+                                                     "ops_head": big[:8], "log_tail": log[-2000:]})
+        else:
+            fails = oracle(big, oi)
+            if fails:
+                C.violation(ctx, "rl-crowd-oracle", {
+                    "what": "property oracle fails on the implementation's own outputs (one client spends its burst, 70 000 other addresses are seen, the client asks again)",
+                    "oracle_failures": fails[:5], "ops": big, "impl_outputs_head": oi[:8], "impl_outputs_tail": oi[-4:]})
+        ctx.cov["crowd_clients_oracle_only"] = 70000
     iso_checked = 0
     if bad == 0:
         si, _ = d.last
